@@ -137,8 +137,17 @@ structure Table where
   start : Nat               -- `*start`: where the location list begins (what the superblock records)
   deriving Repr
 
-/-- `sqfs_write_table` (write_table.c:20-81) for a table of `data.length` bytes written to a file of `base` bytes -/
-def writeTable (cmp : Codec) (base : Nat) (data : Bytes) : Table :=
+/-- the blocks and (relative) locations `sqfs_write_table` produces for a table — the first, coarser model (locations
+recomputed from the finished block list), kept for its users (C01 `Enc*`, C17 `C17Export`);
+`Sqfs.MetaWriter.writeTable_eq_writeTableM` shows it is `writeTableM` at base 0 -/
+def writeTable (cmp : Codec) (data : Bytes) : List Block × List Nat :=
+  let st := run cmp (chunksOf (data.length + 1) data)
+  let locs := (st.out.foldl (fun (acc : List Nat × Nat) b => (acc.1 ++ [acc.2], acc.2 + 2 + b.stored.length)) ([], 0)).1
+  (st.out, locs)
+
+/-- `sqfs_write_table` (write_table.c:20-81) for a table of `data.length` bytes written to a file of `base` bytes,
+with the locations taken where the C code takes them (`get_size` before every chunk) -/
+def writeTableM (cmp : Codec) (base : Nat) (data : Bytes) : Table :=
   let r := writeTableGo cmp base (chunksOf (data.length + 1) data) {} []
   let st := flush cmp r.1                                              -- :59
   { blocks := st.out, locs := r.2, start := base + outBytes st.out }  -- :64
